@@ -53,7 +53,12 @@ func RunEnc(ops []Call) (obs string) {
 }
 
 // EncodeCalls runs Destination calls through a fresh Encoder (hi-res optional).
-func EncodeCalls(cs []Call, hires bool) ([]byte, error) {
+func EncodeCalls(cs []Call, hires bool) (bs []byte, err error) {
+	defer func() {
+		if p := recover(); p != nil {
+			bs, err = nil, fmt.Errorf("PANIC in the Encoder: %v", p)
+		}
+	}()
 	var e encode.Encoder
 	e.HighResolutionCoordinates = hires
 	for _, c := range cs {
